@@ -63,6 +63,41 @@ impl FileManager for Files {
     }
 }
 
+/// the file manager of a long-lived session (beff-wasm `LazyFileManager`): a file is parsed when it is first fetched;
+/// `get_existing_file` answers only for files loaded so far
+pub struct LazyFiles {
+    pub sources: BTreeMap<String, String>,
+    pub fs: BTreeMap<BffFileName, Rc<ParsedModule>>,
+    pub known: BTreeSet<String>,
+}
+impl LazyFiles {
+    fn load(&mut self, name: &BffFileName) -> Option<Rc<ParsedModule>> {
+        if let Some(m) = self.fs.get(name) {
+            return Some(m.clone());
+        }
+        let content = self.sources.get(name.as_str())?.clone();
+        let mut r = Resolver { known: &self.known };
+        match parse_and_bind(&mut r, name, &content) {
+            Ok(m) => {
+                self.fs.insert(name.clone(), m.clone());
+                Some(m)
+            }
+            Err(_) => None,
+        }
+    }
+}
+impl FileManager for LazyFiles {
+    fn get_or_fetch_file(&mut self, name: &BffFileName) -> Option<Rc<ParsedModule>> {
+        self.load(name)
+    }
+    fn get_existing_file(&self, name: &BffFileName) -> Option<Rc<ParsedModule>> {
+        self.fs.get(name).cloned()
+    }
+    fn resolve_import(&mut self, current_file: BffFileName, module_specifier: &str) -> Option<BffFileName> {
+        resolve(&self.known, current_file.as_str(), module_specifier)
+    }
+}
+
 pub enum Outcome {
     Js(String),
     Diags(Vec<Sx>),
@@ -95,6 +130,39 @@ pub fn compile_files(files: &[(String, String)], strfmts: &[String], numfmts: &[
             }
         }
         let mut man = Files { fs, known };
+        extract_with(&mut man, strfmts, numfmts)
+    })
+}
+
+/// the same project through a lazily loading session: `preload` files are registered up front (in that order), the rest
+/// is parsed on demand; `runs` extractions on the same session, the outcome of the last one is returned
+pub fn compile_files_lazy(files: &[(String, String)], strfmts: &[String], numfmts: &[String], preload: &[usize], runs: usize) -> Outcome {
+    GLOBALS.set(&Globals::new(), || {
+        let known: BTreeSet<String> = files.iter().map(|f| f.0.clone()).collect();
+        let sources: BTreeMap<String, String> = files.iter().cloned().collect();
+        let mut man = LazyFiles { sources, fs: BTreeMap::new(), known };
+        for i in preload {
+            man.load(&BffFileName::new(files[*i].0.clone()));
+        }
+        // like the eager manager: an entry file that does not parse is a parse failure
+        if man.load(&BffFileName::new("entry.ts".into())).is_none() {
+            let mut r = Resolver { known: &man.known };
+            if let Some(src) = man.sources.get("entry.ts") {
+                if let Err(e) = parse_and_bind(&mut r, &BffFileName::new("entry.ts".into()), src) {
+                    return Outcome::ParseFail(format!("{}", e));
+                }
+            }
+        }
+        let mut last = extract_with(&mut man, strfmts, numfmts);
+        for _ in 1..runs {
+            last = extract_with(&mut man, strfmts, numfmts);
+        }
+        last
+    })
+}
+
+fn extract_with<M: FileManager>(man: &mut M, strfmts: &[String], numfmts: &[String]) -> Outcome {
+    {
         let entry = EntryPoints {
             parser_entry_point: BffFileName::new("entry.ts".into()),
             settings: BeffUserSettings {
@@ -102,7 +170,7 @@ pub fn compile_files(files: &[(String, String)], strfmts: &[String], numfmts: &[
                 number_formats: numfmts.iter().cloned().collect(),
             },
         };
-        let res = beff_core::extract(&mut man, entry);
+        let res = beff_core::extract(man, entry);
         if !res.errors.is_empty() {
             let ds = res
                 .errors
@@ -128,7 +196,7 @@ pub fn compile_files(files: &[(String, String)], strfmts: &[String], numfmts: &[
             Ok(code) => Outcome::Js(code),
             Err(e) => Outcome::EmitErr(format!("{}", e)),
         }
-    })
+    }
 }
 
 pub fn files_of(req: &Sx) -> Vec<(String, String)> {
@@ -229,6 +297,22 @@ pub fn run_det(req: &Sx) -> (Sx, Sx) {
         if other != base {
             fails.push(list(vec![atom(if k == 0 { "c10.thread" } else { "c10.order" }), list(order.iter().map(|i| num(*i)).collect()), st(&diff_hint(&base, &other))]));
             break;
+        }
+    }
+    // a long-lived session loads files lazily: nothing registered / everything registered / a random part registered,
+    // first and second extraction of the session — the outcome is a function of the file contents only
+    if fails.is_empty() && files.len() > 1 {
+        let all: Vec<usize> = (0..files.len()).collect();
+        let part: Vec<usize> = all.iter().cloned().filter(|_| rng.below(2) == 0).collect();
+        for (label, pre, runs) in [("none", vec![], 1usize), ("none-twice", vec![], 2), ("part", part, 1)] {
+            let (f2, s2, n2) = (files.clone(), s.clone(), n.clone());
+            let pre2 = pre.clone();
+            let h = std::thread::Builder::new().stack_size(64 << 20).spawn(move || format!("{}", outcome_sx(compile_files_lazy(&f2, &s2, &n2, &pre2, runs)))).unwrap();
+            let other = h.join().unwrap_or_else(|_| "(panic-in-thread)".to_string());
+            if other != base {
+                fails.push(list(vec![atom("c10.lazy"), atom(label), list(pre.iter().map(|i| num(*i)).collect()), st(&diff_hint(&base, &other))]));
+                break;
+            }
         }
     }
     let reply = list(vec![atom("det"), atom(&kind), st(&format!("{:016x}", fnv(&base)))]);
